@@ -354,6 +354,52 @@ def tie_order(job):
              "stderr": f"with_base={with_base} file_on_x={file_on_x} exits={p.returncode},{ps.returncode}"}]
 
 
+# two texts whose BLAKE3 digests share their first 48 bits (0d46cbb782fd eb.. > 0d46cbb782fd 89..): the conflict-copy's
+# 12-hex name cannot tell them apart, the winner rule (greater FULL digest at the path) still must
+TIE_HI, TIE_LO = b"draft 23336915\n", b"draft 30070938\n"
+
+
+def shortid_tie(job):
+    """a divergent edit whose two versions have the same short id, in both orders of naming the roots, with and without a base:
+    the version with the greater digest (version 2) ends at the path, the other (version 1) in the conflict-copy"""
+    k, _ = job
+    with_base, hi_on_x = bool(k & 1), bool(k & 2)
+    d = os.path.join(CFG["dir"], f"sid{k}")
+    shutil.rmtree(d, ignore_errors=True)
+
+    def kind(p):
+        return {TIE_HI: 2, TIE_LO: 1, CONTENT[1]: 3}.get(open(p, "rb").read(), -1)
+
+    def tree2(root):
+        return {os.path.relpath(os.path.join(dp, f), root): kind(os.path.join(dp, f)) for dp, dn, fn in os.walk(root) for f in fn}
+    res = []
+    for order in ("XY", "YX"):
+        sb = os.path.join(d, order)
+        X, Y, home = os.path.join(sb, "X"), os.path.join(sb, "Y"), os.path.join(sb, "home")
+        for x in (X, Y, home):
+            os.makedirs(x)
+        args = [X, Y] if order == "XY" else [Y, X]
+        if with_base:
+            for side in (X, Y):
+                open(os.path.join(side, "f"), "wb").write(CONTENT[1])
+            subprocess.run([CFG["copia"], "bisync"] + args, env=_env(home), stdout=subprocess.PIPE, stderr=subprocess.PIPE, timeout=60)
+        hs, ls = (X, Y) if hi_on_x else (Y, X)
+        open(os.path.join(hs, "f"), "wb").write(TIE_HI)
+        open(os.path.join(ls, "f"), "wb").write(TIE_LO)
+        x0, y0 = tree2(X), tree2(Y)
+        p = subprocess.run([CFG["copia"], "bisync"] + args, env=_env(home), stdout=subprocess.PIPE, stderr=subprocess.PIPE, timeout=60)
+        res.append((x0, y0, tree2(X), tree2(Y), p))
+    (x0, y0, x1, y1, p), (_, _, x1s, y1s, ps) = res
+    names = sorted(set(x0) | set(y0) | set(x1) | set(y1) | set(x1s) | set(y1s))
+    fam = [[j + 1 for j, m2 in enumerate(names) if m2 == n or m2.startswith(n + ".conflict-")] for n in names]
+    arr = lambda t: [t.get(n, 0) for n in names]
+    completed = p.returncode == 0 or (p.returncode == 1 and b"had conflicts" in p.stderr)
+    return [{"seed": f"shortid-tie-{k}", "step": 0, "names": names, "fam": fam, "A": arr(x0), "B": arr(y0), "E": [0] * len(names), "tr": False, "stg": False,
+             "last": [0] * len(names), "A2": arr(x1), "B2": arr(y1), "altA2": arr(x1s), "altB2": arr(y1s), "E2": arr(x1) if completed else [0] * len(names),
+             "tr2": completed, "exit": p.returncode, "completed": completed, "nplan": -1, "want_at": [[names.index("f") + 1, 2]],
+             "stderr": f"with_base={with_base} hi_on_x={hi_on_x} exits={p.returncode},{ps.returncode}"}]
+
+
 def _decodable(b):
     try:
         b.decode("utf8")
@@ -386,4 +432,6 @@ def run_all(copia, root, jobs, nproc=12, pairs=False, link_target=None):
             if link_target:
                 for r in pool.imap_unordered(tie_order, [(k, None) for k in range(4)]):
                     out.extend(r)
+            for r in pool.imap_unordered(shortid_tie, [(k, None) for k in range(4)]):
+                out.extend(r)
     return out
